@@ -21,6 +21,7 @@ package ro
 //@   type shareEnv
 //@   props C11 C13 C07
 //@   binds mu getOrCreateSubject refCount config source
+//@   calls AddUnsubscribable NewObserverWithContext NewSubscriber ShareWithConfig$1$3$1 StoreInt32 SubscribeWithContext
 //@   panicforks
 //@   maypanic
 //@   nolockleak
@@ -38,6 +39,7 @@ package ro
 //@   type shareEnv
 //@   props C11 C14
 //@   binds currentSubject currentSourceSubscription subject
+//@   calls Unsubscribe
 //@   holding mu
 //@   track currentSourceSubscription.*
 //@   ensures [releases-the-upstream-of-that-generation|C11] trace(currentSourceSubscription.Unsubscribe())
@@ -48,7 +50,8 @@ package ro
 //@   note the error callback of the proxy between the source and the subject: the shared state is settled (the generation reset, or marked as kept) BEFORE the subject's subscribers hear about the error, so that whatever they do in response - leave, subscribe again - and whoever arrives meanwhile sees the final state
 //@   type shareEnv
 //@   props C11
-//@   binds ctx err config currentSubject currentSourceSubscription
+//@   binds ctx err config mu currentSubject currentSourceSubscription hasBeenResetOnError
+//@   calls ErrorWithContext Lock StoreInt32 Unlock fn:reset
 //@   track currentSubject.* currentSourceSubscription.*
 //@   ensures [resets-before-telling-the-subscribers|C11] config.ResetOnError ==> trace(currentSourceSubscription.Unsubscribe(), currentSubject.ErrorWithContext(ctx, err)) && heldat(mu, currentSourceSubscription.Unsubscribe) && notheldat(mu, currentSubject.ErrorWithContext)
 //@   ensures [marks-the-kept-generation-before-telling-the-subscribers|C11] !config.ResetOnError ==> trace(currentSubject.ErrorWithContext(ctx, err)) && atevent(currentSubject.ErrorWithContext, hasBeenResetOnError) == 1
@@ -57,7 +60,8 @@ package ro
 //@   note the completion callback of the proxy: as the error callback
 //@   type shareEnv
 //@   props C11
-//@   binds ctx config currentSubject currentSourceSubscription
+//@   binds ctx config mu currentSubject currentSourceSubscription hasBeenResetOnCompletion
+//@   calls CompleteWithContext Lock StoreInt32 Unlock fn:reset
 //@   track currentSubject.* currentSourceSubscription.*
 //@   ensures [resets-before-telling-the-subscribers|C11] config.ResetOnComplete ==> trace(currentSourceSubscription.Unsubscribe(), currentSubject.CompleteWithContext(ctx)) && heldat(mu, currentSourceSubscription.Unsubscribe) && notheldat(mu, currentSubject.CompleteWithContext)
 //@   ensures [marks-the-kept-generation-before-telling-the-subscribers|C11] !config.ResetOnComplete ==> trace(currentSubject.CompleteWithContext(ctx)) && atevent(currentSubject.CompleteWithContext, hasBeenResetOnCompletion) == 1
@@ -67,6 +71,7 @@ package ro
 //@   type shareEnv
 //@   props C11 C13 C03 C14
 //@   binds sub mu refCount config hasBeenResetOnError hasBeenResetOnCompletion currentSourceSubscription
+//@   calls LoadInt32 Lock Unlock Unsubscribe fn:reset
 //@   inline ShareWithConfig$1$2
 //@   track sub.* currentSourceSubscription.*
 //@   ensures [leaves-the-subject|C11,C03] called(sub.Unsubscribe)
@@ -102,6 +107,7 @@ package ro
 //@   note the disconnect callback: the subject is replaced only when the configuration says so, under the mutex
 //@   props C11 C13
 //@   binds s
+//@   calls Lock Unlock fn:t10
 //@   track callfn.ANY config.Connector
 //@   ensures [keeps-the-subject-unless-reset-on-disconnect|C11] !s.config.ResetOnDisconnect ==> trace() && count(lock.mu) == 0
 //@   ensures [reset-on-disconnect-installs-a-fresh-subject-under-the-lock|C11,C13] s.config.ResetOnDisconnect ==> count(lock.mu) == 1
@@ -128,12 +134,14 @@ package ro
 //@   note the connector: a replay subject of the configured size
 //@   props C11
 //@   binds bufferSize
+//@   calls NewReplaySubject
 //@   track call.NewReplaySubject
 //@   ensures [connector-is-a-replay-subject-of-the-configured-size|C11] trace(call.NewReplaySubject(bufferSize))
 
 //@ func ShareReplay$1
 //@   props C11
 //@   binds bufferSize
+//@   calls NewReplaySubject
 //@   track call.NewReplaySubject
 //@   ensures [connector-is-a-replay-subject-of-the-configured-size|C11] trace(call.NewReplaySubject(bufferSize))
 
